@@ -39,12 +39,14 @@ class BasePickerModel(ABC):
         # if depth is too large
         if isinstance(depth, (int, np.integer)):
             depth = (depth, depth, depth)
+        # NOTE: dask interprets a tuple as per-axis depths but a list as per-array.
+        depth = tuple(min(s, d) for s, d in zip(image.shape, depth))
         task: da.Array = image.map_overlap(
             self._pick_in_chunk_wrapped,
             **params,
             **kwargs,
             # dask parameters
-            depth=[min(s, d) for s, d in zip(image.shape, depth)],
+            depth=depth,
             trim=False,
             boundary=boundary,
             dtype=object,
@@ -63,6 +65,16 @@ class BasePickerModel(ABC):
     ) -> NDArray[np.object_]:
         pos, quats, features = self.pick_in_chunk(image, **kwargs)
         locs: list[tuple[int, int]] = block_info[None]["array-location"]
+        # The chunk was extended by the overlap depth on both sides. Keep only the picks
+        # in its own core so that a particle in an overlap zone is reported exactly once.
+        keep = np.ones(pos.shape[0], dtype=np.bool_)
+        for i, (start, stop) in enumerate(locs):
+            size = stop - start
+            _depth = (image.shape[i] - size) / 2
+            keep &= (pos[:, i] >= _depth - 0.5) & (pos[:, i] < _depth + size - 0.5)
+        pos = pos[keep]
+        quats = quats[keep]
+        features = {k: np.asarray(v)[keep] for k, v in features.items()}
         for i, (start, _) in enumerate(locs):
             pos[:, i] += start
 
